@@ -847,14 +847,9 @@ XML_SINGLETON_KEY = 'uc:xml:length-1-vector-read-as-scalar'
 
 def _xml_singleton(ctx, case, tag):
     """Consequence of the XML codec (assumption 2), compensated by Atoms/System (broadcast to natoms) but
-    visible on uc.value_unit alone.  Reported as a finding only if known_findings.json lists it as open;
-    otherwise recorded in the evidence notes."""
-    if any(k.get('property') == PROP and k.get('key') == XML_SINGLETON_KEY for k in cm.load_known()):
-        ctx.violate(XML_SINGLETON_KEY, f'{tag}: shape (1,) written, () read back from XML text', {'case': case})
-    else:
-        note = 'uc.value_unit reads a length-1 vector back from XML text as a scalar (XML one-element-list collapse)'
-        if note not in ctx.notes:
-            ctx.notes.append(note)
+    visible on uc.value_unit alone: a genuine violation of the "array shapes" clause, recorded as an open
+    finding in known_findings.json under this key (see DESIGN.md section 7.4)."""
+    ctx.violate(XML_SINGLETON_KEY, f'{tag}: shape (1,) written, () read back from XML text', {'case': case})
 
 
 def oracle(ctx, case, r: RealRun):
